@@ -106,7 +106,11 @@ class InsecureHomeKitProtocol(asyncio.Protocol):
         self.transport = transport
 
     def connection_lost(self, exception: Exception) -> None:
-        self.connection._connection_lost(exception)
+        # Only tell the connection about the loss if it is still using this
+        # protocol. A late notification for a connection that was already
+        # abandoned must not tear down the connection that replaced it.
+        if self.connection.protocol is self:
+            self.connection._connection_lost(exception)
         self._cancel_pending_requests()
 
     def _handle_timeout(self, fut: asyncio.Future[Any]) -> None:
